@@ -644,6 +644,14 @@ func TestReplay(t *testing.T) {
 		}
 		return
 	}
+	var tc typesCase
+	if _, err := evid.LoadReplay(p, &tc); err == nil && len(tc.Sigs) > 0 {
+		if msg := evalTypes(&tc); msg != "" {
+			evid.Violation("replay", &tc, "%s", msg)
+			t.Fatal(msg)
+		}
+		return
+	}
 	var c Case
 	if _, err := evid.LoadReplay(p, &c); err != nil {
 		t.Fatal(err)
